@@ -906,8 +906,9 @@ def run(ctx: Ctx):
 
 
 META = {
-    "technique": "abstract interpretation of the accessors over stored x requested representations against the "
-                 "permanent-conversion oracle; label/position typing; structural rules on interpolator construction",
+    "technique": "abstract interpretation of the accessors over stored x requested representations against the permanent-convers"
+                 "ion oracle; label/position typing; split_ads_data and the interpolator caches interpreted on concrete sequence"
+                 "s / cache states; structural rules on interpolator construction",
     "level_text": "Static: every accessor of both isotherm classes is abstractly interpreted for each stored "
                   "representation and request shape (keep / other unit / other mode or basis / impossible); the "
                   "derived expression must be F_out*g(F_in*x) with exactly the factors of the permanent conversion, "
